@@ -145,7 +145,7 @@ def corpus():
 
 
 def check(run: Run, lean: dict) -> int:
-    n = 1500 if run.tier == "quick" else 40000
+    n = run.budget(1500, 40000)
     run.extra["rule"] = (
         "generated trees (parsed with/without default namespace, or API-built; special characters & < > \" ' ]]>, non-ASCII, "
         "comments, PIs, nested/mixed namespaces, namespaced attributes) x namespaces argument (None, {}, default, prefixes, "
